@@ -306,6 +306,16 @@ func equalityChecksPresence(c *core.Ctx) {
 		if sf == nil || sf.Blocks == nil {
 			continue
 		}
+		// Equals may delegate to a helper method of the same type (the cycle-aware walk)
+		for _, b := range sf.Blocks {
+			for _, in := range b.Instrs {
+				if ci, ok := in.(ssa.CallInstruction); ok {
+					if cal := ci.Common().StaticCallee(); cal != nil && cal.Blocks != nil && cal.Signature.Recv() != nil && core.NamedOf(cal.Signature.Recv().Type()) == nt && len(ci.Common().Args) > 0 && ci.Common().Args[0] == ssa.Value(sf.Params[0]) {
+						sf = cal
+					}
+				}
+			}
+		}
 		n++
 		commaOk := false
 		for _, b := range sf.Blocks {
